@@ -124,6 +124,20 @@ CLAIMED = {
              "are identifier-safe (representation invariant, extern getGraphInfo@psql); database/sql and sqlx calls other than the "
              "Scan family do not touch modelled state.",
         technique="contract-based deductive verification: call-site obligations generated over go/ssa + SMT (z3/cvc5)"),
+    "C18": dict(
+        level="other",
+        text="Partial: (1) the server's BulkAdd handler is proved, for every sequence of received elements (known, unknown and schema "
+             "graphs, invalid elements, transport errors), never to send on or close a closed element stream and never to dereference "
+             "nil - an unroutable element is counted and skipped and leaves the current graph's stream open; (2) kvgraph BulkAdd is "
+             "proved to apply insertVertex/insertEdge - the per-element operations AddVertex/AddEdge use - to every streamed element "
+             "in one bulk write, consuming the whole stream, changing no non-index key other than the keys of streamed elements of its "
+             "own graph and touching no other graph's timestamp; (3) per-element authorisation of the stream is BulkWriteFilter.RecvMsg "
+             "(C05). Not decided: the reported insert/error counts, util.StreamBatch (used by the SQL/Mongo drivers, goroutine fan-out) "
+             "and the state equality with one-by-one loading beyond the shared per-element contracts.",
+        ref="§5 C18",
+        note=TRUST + " Assumed: gRPC stream Recv/SendAndClose and gdbi.GraphDB.Graph contracts (server/zz_contracts_verif.go), kvi interface "
+             "contract; goroutines spawned by the handler are not executed by the model (they only read the stream).",
+        technique="contract-based deductive verification: WP/VC generation over go/ssa + SMT (z3/cvc5)"),
 }
 
 NOT_APPLICABLE = {
